@@ -71,7 +71,7 @@ def assemble(world, main, texts, scale=1):
         out["outcome"] = "OK"
     elif isinstance(err, StepBudgetExceeded):
         out["outcome"] = "HANG"
-        out["detail"] = "step budget exceeded in %s phase" % out["phase"]
+        out["detail"] = "%s exceeded in %s phase" % ("CPU-time backstop (a loop outside Python code)" if "cpu-time" in str(err) else "step budget", out["phase"])
     elif isinstance(err, (exc_mod.ParseError, exc_mod.TranslationError)):
         # the CLI prints error.value and str(error.statement): both must be printable
         try:
@@ -208,14 +208,12 @@ class C13(object):
         texts["main.asm"] = "".join(case["lines"])
         for name, text in sorted(texts.items()):
             w.put(name, text.encode("utf-8"), who="SETUP")
-        for name in sorted(case.get("files", {})):
-            res.stats["fault:include_file_present"] += 0
         for kind in case.get("pre", []):
             self.put_existing_target(w, kind)
             res.stats["fault:pre_existing_target"] += 1
         a = assemble(w, "main.asm", texts)
         if a["outcome"] == "HANG":
-            # confirm at 8x both budgets before reporting (DESIGN C13)
+            # confirm at 8x both budgets before reporting (DESIGN C13); the CPU-time backstop grows with the budget too
             w2 = World()
             for name, text in sorted(texts.items()):
                 w2.put(name, text.encode("utf-8"), who="SETUP")
